@@ -269,7 +269,7 @@ func (h *H) checkInbound(f inboundFlags, final bool) (ownedAtEnd map[uint16]bool
 			// Ownership as the property states it: the application invokes
 			// ReadSlices again after an exactly-once message was returned to it.
 			// (Excepted, as documented: the marker Save of that invocation fails.)
-			if f.c04 && lastRet != nil && lastRet.qos == 2 && lastRet.seq > lastStart && !owned[lastRet.id] {
+			if lastRet != nil && lastRet.qos == 2 && lastRet.seq > lastStart && !owned[lastRet.id] {
 				owned[lastRet.id] = true
 				tentative, tentativeSet = lastRet.id, true
 			}
@@ -290,7 +290,9 @@ func (h *H) checkInbound(f inboundFlags, final bool) (ownedAtEnd map[uint16]bool
 				}
 				ii[e.Conn]++
 				switch {
-				case d.P.Type == refmqtt.PUBLISH && d.P.QoS == 2 && marker[d.P.ID]:
+				case d.P.Type == refmqtt.PUBLISH && d.P.QoS == 2 && (marker[d.P.ID] || owned[d.P.ID]):
+					// (owned without marker yet: the acknowledgement flush, which
+					// saves it, precedes the processing of what was read along)
 					bump(suppressedOn, e.Conn, d.P.ID)
 				case d.P.Type == refmqtt.PUBREL:
 					bump(relsOn, e.Conn, d.P.ID)
@@ -389,7 +391,13 @@ func inboundCase(rt *rapid.T, prop string, f inboundFlags) {
 		bufSize = 128 * 1024
 	}
 	h := newH(rt, prop, sim.Options{Config: cfg})
-	h.Act("readBuf=%d", bufSize)
+	// what the application does with a BigMessage: ReadAll, or nothing (the
+	// next ReadSlices then discards the payload)
+	skipBig := rapid.Bool().Draw(rt, "applicationSkipsBigMessages")
+	if skipBig {
+		h.App.ReadBig = func(int) bool { return false }
+	}
+	h.Act("readBuf=%d skipBig=%t", bufSize, skipBig)
 	holds, reconnectBetween, retransmitted, restarts, markerFaults := 0, 0, 0, 0, 0
 	var fc faultCounters
 	h.Act("appStep")
@@ -427,6 +435,28 @@ func inboundCase(rt *rapid.T, prop string, f inboundFlags) {
 		"appStep": func(rt *rapid.T) {
 			h.Act("appStep")
 			h.appStep("appStep")
+		},
+		// a message larger than the read buffer which the application
+		// skips; the connection is lost while the next ReadSlices discards
+		// the payload (its tail never arrives)
+		"bigSkippedThenLoss": func(rt *rapid.T) {
+			c := h.Current()
+			if !skipBig || bufSize > 4096 || c == nil || !c.Accepted() || c.Blackholed() || !h.App.InCall() || !h.ReaderWaiting() {
+				rt.Skip("needs a small read buffer, an application which skips, and a reader waiting for input")
+			}
+			qos := byte(rapid.SampledFrom(levels).Draw(rt, "qos"))
+			size := bufSize + rapid.IntRange(20, 300).Draw(rt, "beyond")
+			cut := rapid.IntRange(1, 15).Draw(rt, "tailMissing")
+			kind := rapid.SampledFrom([]int{sim.RReset, sim.REOF, sim.RExpiry}).Draw(rt, "kind")
+			off := c.InEnqueued() + size - cut // inside the payload's tail (the header adds a few bytes)
+			c.ArmRead(sim.RFault{Off: off, Kind: kind})
+			h.Act("bigSkippedThenLoss: read fault %s %d bytes before the end of the next message's payload", rfaultNames[kind], cut)
+			nextBase = 1
+			h.brokerSendBase(qos, size, nextBase)
+			h.Act("appStep")
+			h.appStep("discard of the skipped payload")
+			reconnectBetween++
+			h.label("big-message-skipped-then-loss-inside-its-payload")
 		},
 		"hold": func(rt *rapid.T) {
 			// the application keeps the returned slices for a while: the
